@@ -30,17 +30,19 @@ class TheCheck(SeqCheck):
     module = "seq"
     harness = "seq"
     mode = "seq"
+    lib = "libqw.a"      # allocator traffic of the library is counted (allocs= / live= fields)
     rule = ("operation histories on qlist/qqueue/qstack/qgrow executed by the C library (ASan+UBSan+LSan build of the "
             "working tree) and by the Lean model; after every operation both print the API-level content (getat(i) for "
             "all i, size, datasize, toarray) and the private state (first/next chain, last/prev chain, num, max, "
-            "datasum); the oracle is an ideal Python list evaluated on the implementation's transcript; "
+            "datasum, the library's live block count) and the number of allocation attempts of the call; the oracle is an "
+            "ideal Python list evaluated on the implementation's transcript; "
             "distinct_nontrivial = distinct (operation, result kind, errno) classes")
     assumptions = ["hand model of qlist.c/qqueue.c/qstack.c/qgrow.c validated on the explored histories only",
                    "sequential behaviour only (lock calls are the business of C13/C14)",
                    "theorems assume fewer than 2^31 elements (an `int` index cannot address more) and `int` indexes",
                    "popint/getint on elements shorter than 8 bytes and getnext through a cursor whose successor was "
                    "removed are outside the API contract (model: Fault.oob / Fault.dangling) and are not generated",
-                   "allocation failure is not modelled here (C15)"]
+                   "allocation failure is not exercised here (C15: Props/C15Seq.lean, checks/seqoverlay.py)"]
     exhaustive_note = True
 
     # ------------------------------------------------------------------ generators
